@@ -259,6 +259,10 @@ func (propC14) Gen(r *Rng, run uint64, tier string) *Plan {
 			spec.RecMin, spec.RecMax = 20, 90
 		case x < 19:
 			spec.NoHuge, spec.Msg, spec.RecMax = false, "rich", 5
+		case x < 21:
+			// one very long log (whatever is done every so-many records happens a few times)
+			spec.NMin, spec.NMax, spec.RecMin, spec.RecMax, spec.Msg = 1, 1, 1100, 2600, "token"
+			p.Tags["long_log"] = "1"
 		}
 	}
 	if sweep {
@@ -377,6 +381,9 @@ func (propC14) Gen(r *Rng, run uint64, tier string) *Plan {
 		kind := []string{FaultCut, FaultCut, FaultReadError, FaultReadError, FaultFrame, FaultFrame, FaultOpenError, FaultOpenError, FaultListError, FaultCancel, FaultSlowRead, FaultOpenLatency, FaultCloseError, FaultCtxCancel}[fr.Intn(14)]
 		if len(l.Ends) == 0 && (kind == FaultCut || kind == FaultFrame || kind == FaultSlowRead) {
 			kind = FaultReadError
+		}
+		if p.Tags["long_log"] == "1" && fr.Bool(0.6) {
+			kind = []string{FaultCtxCancel, FaultCtxCancel, FaultCancel}[fr.Intn(3)]
 		}
 		f := Fault{Kind: kind, Container: c.ID, Open: open}
 		switch kind {
